@@ -1041,6 +1041,14 @@ class Interp:
             return x == y
         if isinstance(x, OB) and isinstance(y, OB):
             return x.t == y.t
+        if (isinstance(x, OB) and isinstance(y, IB)) or (isinstance(y, OB) and isinstance(x, IB)):
+            # opaque vs integer encoding of the same width: equal bytes <=> equal integer values
+            ob, ib = (x, y) if isinstance(x, OB) else (y, x)
+            f = B_int_le if ib.end == "little" else B_int_be
+            v = f(ob.t)
+            self.p.assume(z3.And(v >= 0, v < 256 ** k))
+            self.p.blen[id_key(ob.t)] = k
+            return ib.t == v
         if isinstance(x, OB) or isinstance(y, OB):
             # opaque vs structured: byte-wise
             if k > 64:
